@@ -738,6 +738,12 @@ func checkEmit(prop, tier string, seed int, updateLedger bool) int {
 	}
 	all := e.evalEmit(runs)
 	all = append(all, labelledContractObligations(prop, tier)...)
+	agreeSkipped := 0
+	if tier == "thorough" {
+		var ag []emitObl
+		ag, agreeSkipped = agreeObligations(runs)
+		all = append(all, ag...)
+	}
 	var owned []emitObl
 	for _, o := range all {
 		for _, p := range o.Props {
@@ -838,6 +844,7 @@ func checkEmit(prop, tier string, seed int, updateLedger bool) int {
 		"discharged":             discharged,
 		"checker_cmd":            "/verif/bin/goverif check -tier " + tier + " " + prop,
 		"trusted_base":           []string{"golang.org/x/tools go/ssa v0.29.0", "library contracts in goverif/externs.go (fmt.Sprintf, strings.Builder, strcase, html/template rendering)", "z3 / cvc5 (feasibility of result paths)"},
+		"agree_cells_skipped":    agreeSkipped,
 		"explanation":            fmt.Sprintf("EMIT obligations: the real emitters of %v are executed symbolically on %d cell runs (one-field packets; names, lengths, paddings and the whole Configuration symbolic); predicates over the normal form of the emitted text (literal and provenance-carrying atoms) are decided structurally; infeasible result paths are pruned by SMT. %d obligations, %d hold, %d open known findings. Level 'other': the conjuncts about what the emitted text means when run are out of reach (see conjuncts_out_of_reach).", ls, len(runs), len(owned), discharged, len(knownHit)),
 		"samples":                samples,
 		"cells":                  len(emitCells()),
